@@ -41,6 +41,8 @@ type c04Script struct {
 	Zero    bool    `json:"zero,omitempty"`
 	Two     bool    `json:"two,omitempty"`   // two independent hash values used alternately by one consumer
 	Giant   int     `json:"giant,omitempty"` // >0: one hash value fed this many bytes in 1 MiB writes, Sum taken around 2^29 bytes
+	Call    int     `json:"call,omitempty"`  // >0: one single Write call (and one SumSM3 call) of this many bytes, after Pend bytes written before it
+	Pend    int     `json:"pend,omitempty"`
 	Ops     []c04Op `json:"ops"`
 }
 
@@ -60,18 +62,21 @@ func (c04) Plan(tier string) core.Plan {
 // systematic part: every message length 0..200 split at every position into two writes
 // is too large; instead every length 0..260 written (a) in one Write, (b) byte by byte,
 // (c) through io.Copy with 1-byte reads is enumerated: 3*261 cases.
-const c04SysN = 3*261 + 1 // + one stream crossing 2^29 bytes (bit length 2^32)
+const c04SysN = 3*261 + 1 + len(c04Calls) // + one stream crossing 2^29 bytes (bit length 2^32) + single calls of tens and hundreds of megabytes
+
+// single calls: {bytes in the one call, bytes pending before it}
+var c04Calls = [...][2]int{{33<<20 + 37, 5}, {64<<20 + 64, 0}, {1<<29 + 3, 0}, {1<<29 - 60, 63}}
 
 func (c04) Meta() core.Meta {
 	return core.Meta{
 		Level: "exploration",
-		Rule: "systematic: every message length 0..260 x {one Write, byte-by-byte Writes, io.Copy through a 7-byte-chunk pipe}, one stream of 2^29+5 bytes (bit count crosses 2^32) and, thorough tier only, one of 2^32+9 bytes (byte count crosses 2^32) with Sum taken on both sides of each boundary; seeded: histories of <=40 ops, 1 in 250 with 200-1200 ops and up to 128 KiB, 1 in 1500 with single Write calls of 1-3 MiB (mostly with 1..63 bytes pending from earlier writes), 1 in 5 on two hash values used alternately (write, pump through io.Copy/io.CopyBuffer/io.MultiWriter/hand loop over a short-reading stalling pipe, Sum with prefix len/cap, double Sum, Reset, zero-length write) over messages 0..4096 bytes (long runs: 128 KiB) with chunk sizes biased to leave the block buffer at 0,1,55,56,63 and to straddle 64/128. " +
+		Rule: "systematic: every message length 0..260 x {one Write, byte-by-byte Writes, io.Copy through a 7-byte-chunk pipe}, one stream of 2^29+5 bytes (bit count crosses 2^32), four single Write/SumSM3 calls of 33 MiB, 64 MiB and about 2^29 bytes (with 0, 5 or 63 bytes pending) and, thorough tier only, one of 2^32+9 bytes (byte count crosses 2^32) with Sum taken on both sides of each boundary; seeded: histories of <=40 ops, 1 in 250 with 200-1200 ops and up to 128 KiB, 1 in 1500 with single Write calls of 1-3 MiB (mostly with 1..63 bytes pending from earlier writes), 1 in 5 on two hash values used alternately (write, pump through io.Copy/io.CopyBuffer/io.MultiWriter/hand loop over a short-reading stalling pipe, Sum with prefix len/cap, double Sum, Reset, zero-length write) over messages 0..4096 bytes (long runs: 128 KiB) with chunk sizes biased to leave the block buffer at 0,1,55,56,63 and to straddle 64/128. " +
 			"non-trivial = a pipe fault fired, a peek/reset happened mid-stream, or a write straddled a block boundary; distinct = distinct (op-kind sequence, buffer-fill classes at each Sum, pump kinds, faults fired)",
 		Components: map[string]string{"sm3.New/Write/Sum/Reset/SumSM3": "real", "io.Copy/io.CopyBuffer/io.MultiWriter": "real (stdlib consumers of Write's return value)",
 			"byte source": "stub (simulated pipe)", "oracle": "sm3ref (GB/T 32905 transcribed; anchored on A.1/A.2)"},
 		Assumptions: []string{"sm3ref is correct (anchors: GB/T 32905 A.1, A.2; the GM/T 0003.5 ZA/e values)"},
 		FaultKinds:  []string{"short-read", "stall", "eof-with-data", "peek", "double-peek", "reset-midstream", "zero-write", "prefix-spare-capacity", "two-hash-values"},
-		ProbeNames:  []string{"fill=55", "fill=56", "fill=63", "fill=0-after-data", "straddle", "len>=2blocks", "len>=2^29", "write>=1MiB-with-bytes-pending"},
+		ProbeNames:  []string{"fill=55", "fill=56", "fill=63", "fill=0-after-data", "straddle", "len>=2blocks", "len>=2^29", "write>=1MiB-with-bytes-pending", "single-call>=32MiB", "single-call>=2^29"},
 		StepUnit:    "hash ops + pipe reads",
 	}
 }
@@ -87,8 +92,12 @@ func c04Chunk(r *core.Rand) int {
 }
 
 func (c04) Generate(idx int, r *core.Rand, tier string) core.Script {
-	if idx == c04SysN-1 {
+	if idx == 3*261 {
 		return &c04Script{MsgSeed: 0x61a27, Giant: 1<<29 + 5}
+	}
+	if idx > 3*261 && idx < c04SysN {
+		c := c04Calls[idx-3*261-1]
+		return &c04Script{MsgSeed: 0x61a30 + uint64(idx), Call: c[0], Pend: c[1]}
 	}
 	if tier == "thorough" && idx == c04SysN {
 		return &c04Script{MsgSeed: 0x61a28, Giant: 1<<32 + 9} // the byte count itself crosses 2^32
@@ -223,6 +232,10 @@ func (c04) Execute(sc core.Script, keep bool) *core.Result {
 		res.Steps += log.Steps()
 		res.LogLines = log.Lines
 	}()
+	if s.Call > 0 {
+		c04GiantCall(s, res, log)
+		return res
+	}
 	if s.Giant > 0 {
 		c04Giant(s, res, log)
 		return res
@@ -464,7 +477,7 @@ func compress(k []string) []string {
 
 func (c04) Shrinks(sc core.Script) []core.Script {
 	s := sc.(*c04Script)
-	if s.Giant > 0 {
+	if s.Giant > 0 || s.Call > 0 {
 		return nil
 	}
 	cp := func() *c04Script {
@@ -602,6 +615,74 @@ func c04Giant(s *c04Script, res *core.Result, log *core.Log) {
 	})
 	if p {
 		res.Violation = &core.Violation{Class: "panic", Op: "giant", Role: "hash", Param: "stream>=2^29", Detail: "panic: " + txt}
+	}
+	if res.Violation != nil {
+		log.Add("VIOLATION %s", res.Violation.Detail)
+	}
+}
+
+// c04GiantCall hands the hash tens or hundreds of megabytes in ONE Write call (with a few
+// bytes pending from an earlier call) and in one SumSM3 call: code that splits a long
+// argument into runs, or that derives the bit length from the length of one argument,
+// is reached by no stream that is fed in pieces.
+func c04GiantCall(s *c04Script, res *core.Result, log *core.Log) {
+	res.Nontrivial = true
+	res.Fingerprint = fmt.Sprintf("giant-call/%d+%d", s.Pend, s.Call)
+	res.Probes["single-call>=32MiB"]++
+	if s.Call+s.Pend >= 1<<29 {
+		res.Probes["single-call>=2^29"]++
+	}
+	p, txt, _, _ := core.Catch(func() {
+		buf := make([]byte, s.Call)
+		r := core.NewRand(s.MsgSeed)
+		r.Fill(buf[:4096])
+		for off := 4096; off+8 <= len(buf); off += 65536 - 24 { // sparse variation, never block-aligned for long
+			r.Fill(buf[off : off+8])
+		}
+		r.Fill(buf[len(buf)-64:])
+		pre := make([]byte, s.Pend)
+		r.Fill(pre)
+		h := sm3.New()
+		st := ref.NewSM3Stream()
+		if s.Pend > 0 {
+			h.Write(pre)
+			st.Write(pre)
+		}
+		k, err := h.Write(buf)
+		st.Write(buf)
+		if k != len(buf) || err != nil {
+			res.Violation = &core.Violation{Class: "write-n", Op: "write", Role: "Write", Param: "single-call", Detail: fmt.Sprintf("Write(%d) = %d, %v", len(buf), k, err)}
+			return
+		}
+		got, want := h.Sum(nil), st.Sum()
+		log.Add("giant call: %d pending + one Write(%d): digest %s", s.Pend, s.Call, core.Hex8(got))
+		if !bytes.Equal(got, want[:]) {
+			res.Violation = &core.Violation{Class: "wrong-digest", Op: "sum", Role: "Sum", Param: "single-call", Detail: fmt.Sprintf("Sum after %d pending bytes and one Write of %d bytes = %x, SM3 = %x", s.Pend, s.Call, got, want)}
+			return
+		}
+		// the hash value carries on: the counters it kept from the long call are used again
+		h.Write(pre)
+		h.Write(buf[:100])
+		st.Write(pre)
+		st.Write(buf[:100])
+		got, want = h.Sum(nil), st.Sum()
+		if !bytes.Equal(got, want[:]) {
+			res.Violation = &core.Violation{Class: "wrong-digest", Op: "sum", Role: "Sum", Param: "after-single-call", Detail: fmt.Sprintf("Sum %d bytes after the long call = %x, SM3 = %x", s.Pend+100, got, want)}
+			return
+		}
+		if s.Pend == 0 {
+			one := sm3.SumSM3(buf)
+			st2 := ref.NewSM3Stream()
+			st2.Write(buf)
+			w2 := st2.Sum()
+			log.Add("giant call: SumSM3(%d): digest %s", s.Call, core.Hex8(one[:]))
+			if !bytes.Equal(one[:], w2[:]) {
+				res.Violation = &core.Violation{Class: "wrong-digest", Op: "SumSM3", Role: "SumSM3", Param: "single-call", Detail: fmt.Sprintf("SumSM3(%d bytes) = %x, SM3 = %x", s.Call, one, w2)}
+			}
+		}
+	})
+	if p {
+		res.Violation = &core.Violation{Class: "panic", Op: "giant-call", Role: "hash", Param: "single-call", Detail: "panic: " + txt}
 	}
 	if res.Violation != nil {
 		log.Add("VIOLATION %s", res.Violation.Detail)
